@@ -514,7 +514,16 @@ func main() {
 	b.WriteString("def receiverClosesOnOddSession : Bool := " + leanBool(receiverClosesOnOddSession(rft)) + "\n")
 	b.WriteString("def wsForcesUnderlyingDeadline : Bool := " + leanBool(wsForcesUnderlyingDeadline(need("websocketTransport", "Send"))) + "\n")
 	b.WriteString("def finishDrainsTerminalState : Bool := " + leanBool(finishDrainsTerminalState(need("channel", "receiveSession"))) + "\n")
-	b.WriteString("def serveReturnsClosedAfterClose : Bool := " + leanBool(serveReturnsClosedAfterClose(need("Server", "ListenAndServe"))) + "\n\n")
+	b.WriteString("def serveReturnsClosedAfterClose : Bool := " + leanBool(serveReturnsClosedAfterClose(need("Server", "ListenAndServe"))) + "\n")
+
+	muxLoops, muxMatches := true, true
+	for _, kv := range [][3]string{{"handleMessage", "msgHandlers", "messageHandler"}, {"handleNotification", "notHandlers", "notificationHandler"},
+		{"handleRequestCommand", "reqCmdHandlers", "requestCommandHandler"}, {"handleResponseCommand", "respCmdHandlers", "responseCommandHandler"}} {
+		muxLoops = muxLoops && muxLoopShape(need("EnvelopeMux", kv[0]), kv[1])
+		muxMatches = muxMatches && nilPredicateMatches(need(kv[2], "Match"))
+	}
+	b.WriteString("def muxLoopFirstMatchBreak : Bool := " + leanBool(muxLoops) + "\n")
+	b.WriteString("def muxNilPredicateMatches : Bool := " + leanBool(muxMatches) + "\n\n")
 
 	for _, m := range missingNotes {
 		b.WriteString("-- not found in the source on this run: " + strings.ReplaceAll(m, "\n", " ") + "\n")
